@@ -766,6 +766,11 @@ class Interp:
         if name in ("MAX", "MIN"):
             r = pdshim._agg(cells, name.lower())
             return Cell(r.null, r.val, r.kind, dc, kf)
+        if "AGG:" + name in self.udfs:
+            return self.udfs["AGG:" + name](cells)  # SQLite: the repository's own aggregate classes (median / var / std)
+        if name in ("VAR_SAMP", "VARIANCE") and self.dialect == "postgresql":
+            r = pdshim._agg(cells, "var")  # sample variance, NULL below two values (PostgreSQL documentation)
+            return Cell(r.null, r.val, "f", dc, kf)
         raise Unmodelled(f"aggregate {name}")
 
     def scalar_fn(self, name, vals):
@@ -914,11 +919,16 @@ class Interp:
                         keys.append(self.ev(e, orel, full))
                 keyed.append((keys, o))
             desc = [d for _, d in order]
+            null_key = False
             for ks, _ in keyed:
                 for kc in ks:
                     if not z3.is_false(kc.null) and decide(kc.null, (kc,)):
                         if "order_rows_null_key" in pdshim.KF_ON:
-                            raise KnownFindingPath("order_rows_null_key")
+                            # recorded finding: the executors disagree on where a missing sort key goes.  That changes the row SEQUENCE, and the
+                            # row SET only if a LIMIT cuts the table: close the path in that case only, otherwise compare as a multiset.
+                            if limit is not None and limit < len(keyed):
+                                raise KnownFindingPath("order_rows_null_key")
+                            null_key = True
             ties = []
 
             def cmpo(i, j):
@@ -929,7 +939,7 @@ class Interp:
 
             idx = sorted(range(len(keyed)), key=functools.cmp_to_key(cmpo))
             out = [keyed[i][1] for i in idx]
-            ordered = not ties  # tied rows have no defined relative order: compared as a multiset
+            ordered = not ties and not null_key  # tied rows have no defined relative order: compared as a multiset
             if limit is not None and ties and limit < len(out):
                 # which of the tied rows survive a LIMIT is not determined by the property's statement
                 pos = {r: k for k, r in enumerate(idx)}
